@@ -199,9 +199,7 @@ class InterfaceLDM3:
                 )
             stored_type_str = self.ldm_service.get_object_type_from_data_object(
                 stored["dataObject"])
-            if stored_type_str == data_object_type_str and self.ldm_service.ldm_maintenance.data_containers.exists(
-                data_object_type_str, data_provider.data_object_id
-            ):
+            if stored_type_str == data_object_type_str:
                 new_data_object_id = self.ldm_service.update_provider_data(
                     data_provider.data_object_id, data_provider.data_object
                 )  # Update data
